@@ -114,12 +114,18 @@ def update_ref_deps(ref: Union[PortRef, BundleRef], resolved: Connectable):
     for connected_port in ordered_ports(ref._connected_ports):
         connected_port.inst.replace(connected_port.portname, resolved)
 
-    # Update all dependent slices and concats
+    # Update all dependent slices and concats.
+    # Each becomes a dependent of `resolved` in turn: that may be another reference, still to be resolved itself
+    # (e.g. a port tied to a bundle member, `a = A(p=b.x)`, and sliced through the port: `a.p[1]`).
     if hasattr(ref, "_slices"):
         for slice_ in ref._slices:
             slice_.parent = resolved
+            if hasattr(resolved, "_slices"):
+                resolved._slices.add(slice_)
     if hasattr(ref, "_concats"):
         for concat in ref._concats:
             parts = list(concat.parts)
             parts = [resolved if p is ref else p for p in parts]
             concat.parts = tuple(parts)
+            if hasattr(resolved, "_concats"):
+                resolved._concats.add(concat)
